@@ -38,6 +38,9 @@ func parse(path string) *ast.File {
 	if err != nil {
 		die("cannot parse %s: %v", path, err)
 	}
+	// behaviour-preserving normal form (astnorm_gen.go): log calls dropped, x++ / x += 1, := / var, order of pure
+	// conjunctions, orientation of if/else. Identifiers are still matched and printed by NAME in this tool.
+	NormalizeFile(fset, f, AllNorm)
 	return f
 }
 
@@ -391,6 +394,12 @@ func main() {
 						recvLoop = append(recvLoop, "count")
 					} else {
 						recvLoop = append(recvLoop, "other: "+src(t))
+					}
+				case *ast.AssignStmt: // `count += 1`, the normal form of count++
+					if t.Tok == token.ADD_ASSIGN && len(t.Lhs) == 1 && len(t.Rhs) == 1 && src(t.Lhs[0]) == "count" && src(t.Rhs[0]) == "1" {
+						recvLoop = append(recvLoop, "count")
+					} else {
+						recvLoop = append(recvLoop, "other: "+strings.Join(strings.Fields(src(st)), " "))
 					}
 				default:
 					recvLoop = append(recvLoop, "other: "+strings.Join(strings.Fields(src(st)), " "))
